@@ -284,4 +284,22 @@ theorem phase2_some {table : Table} {fuel : Nat} {pfx : Int} {s rest : List Char
           rw [hs, hs']
           simp [List.append_assoc]
 
+/-- When `-` is the only separator literal, a run of separators is a run of dashes. -/
+theorem Seps.replicate {table : Table} (hsep : ∀ lit, (lit, WordAction.sep) ∈ table → lit = ['-'])
+    {seps : List Char} (h : Seps table seps) : ∃ k, seps = List.replicate k '-' := by
+  induction h with
+  | nil => exact ⟨0, rfl⟩
+  | cons hm _ _ ih =>
+    obtain ⟨k, hk⟩ := ih
+    refine ⟨k + 1, ?_⟩
+    rw [hsep _ hm, hk]
+    rfl
+
+theorem length_lt_of_split {s seps lit rest : List Char} (h : s = seps ++ lit ++ rest) (hl : lit ≠ []) :
+    rest.length < s.length := by
+  subst h
+  have : 0 < lit.length := List.length_pos_iff.mpr hl
+  simp only [List.length_append]
+  omega
+
 end Anything.UnitWord
